@@ -12,7 +12,7 @@ STUBS = ["yaml.safe_dump/safe_load and json.dumps/loads: identity on the YAML/JS
 
 def templates(tier, seed):
     ts = []
-    for shape in ("base", "two_same_kind", "df_checks", "multiindex", "index_flags", "regex", "joint_unique", "no_index", "str_checks"):
+    for shape in ("base", "two_same_kind", "df_checks", "multiindex", "index_flags", "regex", "joint_unique", "no_index", "str_checks", "datetime_range"):
         for fmt in ("yaml", "json"):
             ts.append(Template(f"{shape}/{fmt}", t_rt, (shape, fmt), max_paths=3000 if tier == "quick" else 20000, budget_s=60 if tier == "quick" else 900,
                                extra_witnesses=(fmt == "yaml")))
